@@ -14,7 +14,7 @@
 (*     st       TcpClient::state(): none inited connecting connected;  autorc  setAutoReconnect                       *)
 (*     peer     the driver's end of the current connection: none open closed (closed, the client has not noticed yet)  *)
 (*     rx rxoff bytes written by the peer and not yet delivered / already delivered on this connection                *)
-(*     tx shut  bytes accepted by send() on this connection / shutdown(SHUT_WR) done                                   *)
+(*     tx shut  bytes accepted by send() on this connection / shutdown(SHUT_WR) done;  peof  the peer has read the end    *)
 (*   environment: lis (listener up / down), now (virtual clock, ms), fam (unix: connect() fails at once when nobody     *)
 (*     listens and succeeds at once otherwise; tcp: always EINPROGRESS, the verdict comes with the write event)       *)
 (*   arm[w]     what the user's callback w does when it is called next (one shot): C connected, F connect-fail,        *)
@@ -46,7 +46,7 @@ Clr(X) == [X EXCEPT !.out = <<>>, !.r = 0]
 \* a user callback of the connector that ends a start(): promised only between a successful start() and stop()
 EvFinal(X, e) == Ev([(IF X.started THEN X ELSE Flag(X, e \o " although not started")) EXCEPT !.started = FALSE], e, 0, 0)
 
-CloseConn(X) == [X EXCEPT !.peer = "none", !.rx = 0, !.rxoff = 0, !.tx = 0, !.shut = FALSE]
+CloseConn(X) == [X EXCEPT !.peer = "none", !.rx = 0, !.rxoff = 0, !.tx = 0, !.shut = FALSE, !.peof = FALSE]
 
 RECURSIVE DoStart(_), Connect(_), ConnFail(_), React(_, _), Api(_, _), Writable(_), CStart(_), CStop(_), CCleanup(_),
           DoStop(_), DoCleanup(_)
@@ -86,7 +86,7 @@ DoStart(X) ==                                                              \* Tc
 
 ClientConnected(X) ==                                                      \* TcpClient::onTcpConnected()
   React(Ev([X EXCEPT !.st = "connected", !.peer = "open", !.rx = 0, !.rxoff = 0, !.tx = 0, !.shut = FALSE,
-                     !.started = FALSE], "Connected", 0, 0), "C")
+                     !.peof = FALSE, !.started = FALSE], "Connected", 0, 0), "C")
 
 Writable(X) ==                                                             \* TcpConnector::onSocketWritable()
   LET X1 == [X EXCEPT !.wev = "none"] IN                                     \* exitConnectingState()
@@ -110,8 +110,14 @@ CCleanup(X) ==                                                             \* Tc
   IF X.st = "none" THEN [X EXCEPT !.r = 0]
   ELSE [DoCleanup(CStop(X)) EXCEPT !.st = "none", !.autorc = TRUE, !.r = 0]
 
-CSend(X, n) == IF X.st = "connected" THEN [X EXCEPT !.tx = @ + n, !.r = 1] ELSE [X EXCEPT !.r = 0]
-CShutdown(X) == IF X.st = "connected" THEN [X EXCEPT !.shut = TRUE, !.r = 1] ELSE [X EXCEPT !.r = 0]
+CSend(X, n) == IF X.st = "connected" THEN [X EXCEPT !.tx = IF X.peer = "open" /\ ~X.shut THEN @ + n ELSE @, !.r = 1]   \* bytes for a closed peer / after SHUT_WR are lost
+               ELSE [X EXCEPT !.r = 0]
+CShutdown(X) ==                                                            \* TcpClient::shutdown(SHUT_WR)
+  IF X.st = "connected"
+  THEN [X EXCEPT !.shut = TRUE, !.peof = @ \/ X.peer = "open",              \* the peer reads the end of the stream
+                 \* kernel: a TCP socket that has sent and received FIN is closed: shutdown() says ENOTCONN
+                 !.r = IF X.fam = "tcp" /\ X.peer = "closed" /\ X.shut THEN 0 ELSE 1]
+  ELSE [X EXCEPT !.r = 0]
 
 Receive(X) ==                                                              \* BufferedFd read -> receive callback
   React(Ev([X EXCEPT !.rxoff = @ + X.rx, !.rx = 0], "Recv", X.rxoff % 251, X.rx), "R")
@@ -145,7 +151,7 @@ DoPass(X) ==
 \* c: configuration of an execution [tries, hasfail, dly, autorc, arm]
 S0(k, f, c) == [kind |-> k, fam |-> f, cfg |-> c,
                 cs |-> "none", wev |-> "none", tmr |-> -1, fails |-> 0, tries |-> 0, hasfail |-> FALSE, dly |-> 0,
-                st |-> "none", autorc |-> TRUE, peer |-> "none", rx |-> 0, rxoff |-> 0, tx |-> 0, shut |-> FALSE,
+                st |-> "none", autorc |-> TRUE, peer |-> "none", rx |-> 0, rxoff |-> 0, tx |-> 0, shut |-> FALSE, peof |-> FALSE,
                 lis |-> "down", now |-> 0, arm |-> c.arm, out |-> <<>>, r |-> 0,
                 started |-> FALSE, viol |-> {}, bad |-> {}]
 
@@ -169,9 +175,9 @@ StartOp == Alive /\ Op("start", XStart(Clr(S)))
 StopOp == Alive /\ Op("stop", XStop(Clr(S)))
 CleanupOp == Alive /\ Op("cleanup", XCleanup(Clr(S)))
 AdvOp(ms) == Alive /\ Op("adv", [Clr(S) EXCEPT !.now = @ + ms])
-PassOp == Alive /\ Op("pass", DoPass(Clr(S)))
+PassOp == Alive /\ Op("pass", [DoPass(Clr(S)) EXCEPT !.r = 0])
 ArmOp(w, a) == Alive /\ Op("arm", [Clr(S) EXCEPT !.arm[w] = a])
-SendOp(n) == IsCl /\ Op("send", CSend(Clr(S), n))
+SendOp(n) == IsCl /\ S.peer # "closed" /\ Op("send", CSend(Clr(S), n))      \* assumption: no send() after the peer is known to have closed
 ShutdownOp == IsCl /\ Op("shutdown", CShutdown(Clr(S)))
 PSendOp(n) == IsCl /\ S.st = "connected" /\ S.peer = "open" /\ Op("psend", [Clr(S) EXCEPT !.rx = @ + n])
 PCloseOp == IsCl /\ S.st = "connected" /\ S.peer = "open" /\ Op("pclose", [Clr(S) EXCEPT !.peer = "closed"])
@@ -193,7 +199,7 @@ TryLimit == S.tries > 0 /\ S.cs \in {"connecting", "delay"} => S.fails < S.tries
 ClientMatchesConnector == IsCl => /\ (S.st = "connecting") <=> (S.cs \in {"connecting", "delay"})
                                   /\ (S.st = "none") <=> (S.cs = "none")
                                   /\ S.st \in {"inited", "connected"} => S.cs = "inited"
-PeerOnlyWhenConnected == S.st # "connected" => S.peer = "none" /\ S.rx = 0 /\ S.tx = 0 /\ ~S.shut
+PeerOnlyWhenConnected == S.st # "connected" => S.peer = "none" /\ S.rx = 0 /\ S.tx = 0 /\ ~S.shut /\ ~S.peof
 \* per call: at most one Disconnected, and a final callback of the connector only directly after a (re)start
 CountEv(e) == Cardinality({i \in 1..Len(S.out) : S.out[i].e = e})
 OncePerCall == CountEv("Disconnected") <= 1
